@@ -24,7 +24,11 @@ enum fm_bin_op {
   B_COUNT
 };
 // arithmetic operand types
-enum fm_type { T_I8, T_I16, T_I32, T_I64, T_U8, T_U16, T_U32, T_U64, T_F32, T_F64, T_COUNT };
+enum fm_type { T_I8, T_I16, T_I32, T_I64, T_U8, T_U16, T_U32, T_U64, T_F32, T_F64, T_COUNT,
+               T_FIXED = 10,          // fixed_t carried as raw (only fm_xangle)
+               T_LL = 11, T_ULL = 12,   // long long, unsigned long long: distinct integral types of the same width as (u)int64_t
+               T_CHAR = 13,            // reserved, not instantiated: std::cmp_* rejects char in C++20, so char operands do not compile there (DESIGN section 7)
+               T_CODES = 14 };
 // integer <-> fixed entry points
 enum fm_from_int_how { FI_CTOR, FI_INTEGRAL_TO_FIXED, FI_MAKE_FIXED, FI_COUNT };
 enum fm_to_int_how { TI_FIXED_TO_INTEGRAL, TI_STATIC_CAST, TI_FIXED_TO_ARITHMETIC, TI_COUNT };
